@@ -1,0 +1,8 @@
+// Package verifhook provides named points at which a verification
+// harness can delay or park a goroutine in order to widen the window
+// between two critical sections.
+//
+// Without the build tag 'verif' Point is an empty function; with the
+// tag it calls a process-wide callback that the harness installs.
+// The package never touches any rules-engine state.
+package verifhook
